@@ -20,6 +20,11 @@ package main
 //   * snapshots are judged only for environments that are in such an interval
 //     for the whole duration of the snapshot.
 //
+// Faults and timing (seeded): one connection loss per history in a third of the
+// histories (all clients idle, the core resubscribes and reconciles), late
+// TASK_RUNNING for every second environment in half of them, and the "inject"
+// step that makes the non-critical task of a live environment terminate.
+//
 // A request that does not return ends the history; the core's goroutine dump
 // decides whether the expiry is one of three known progress defects outside this
 // property (counted as histories_abandoned_*) or inconclusive.
